@@ -8,6 +8,7 @@ use crate::{
 
 const CHECKPOINT_TAG: &str = "_system:checkpoint";
 const CHECKPOINT_CONTENT_TYPE: &str = "application/x-neumann-checkpoint";
+const CHECKPOINT_SEQ_META: &str = "checkpoint_seq";
 
 /// Persistence layer for checkpoints, backed by the blob store.
 pub struct CheckpointStorage;
@@ -25,12 +26,24 @@ impl CheckpointStorage {
             .as_ref()
             .map(|t| t.operation.operation_name().to_string());
 
+        // `created_at` has one-second resolution: a creation sequence number
+        // gives checkpoints taken within the same second a definite order.
+        // Callers hold the blob store lock across store + retention.
+        let seq = Self::list_with_seq(blob)
+            .await?
+            .iter()
+            .map(|(seq, _)| *seq)
+            .max()
+            .unwrap_or(0)
+            + 1;
+
         let mut options = PutOptions::new()
             .with_content_type(CHECKPOINT_CONTENT_TYPE)
             .with_tag(CHECKPOINT_TAG)
             .with_meta("checkpoint_id", &state.id)
             .with_meta("checkpoint_name", &state.name)
             .with_meta("created_at", state.created_at.to_string())
+            .with_meta(CHECKPOINT_SEQ_META, seq.to_string())
             .with_created_by("system:checkpoint");
 
         if let Some(trigger) = &trigger_desc {
@@ -61,7 +74,20 @@ impl CheckpointStorage {
     }
 
     /// List all checkpoints sorted by creation time (most recent first).
+    ///
+    /// Order is the creation sequence number recorded with each checkpoint, so
+    /// "most recent" is well defined for checkpoints created within the same second.
     pub async fn list(blob: &BlobStore) -> Result<Vec<CheckpointInfo>> {
+        Ok(Self::list_with_seq(blob)
+            .await?
+            .into_iter()
+            .map(|(_, info)| info)
+            .collect())
+    }
+
+    /// Checkpoints with their creation sequence number (0 for checkpoints
+    /// stored before sequence numbers existed), most recent first.
+    async fn list_with_seq(blob: &BlobStore) -> Result<Vec<(u64, CheckpointInfo)>> {
         let artifact_ids = blob
             .by_tag(CHECKPOINT_TAG)
             .await
@@ -90,11 +116,22 @@ impl CheckpointStorage {
                     size: meta.size,
                     trigger: meta.custom.get("trigger").cloned(),
                 };
-                checkpoints.push(info);
+                let seq = meta
+                    .custom
+                    .get(CHECKPOINT_SEQ_META)
+                    .and_then(|s| s.parse::<u64>().ok())
+                    .unwrap_or(0);
+                checkpoints.push((seq, info));
             }
         }
 
-        checkpoints.sort_by(|a, b| b.created_at.cmp(&a.created_at));
+        // Creation order first (immune to same-second ties and clock steps);
+        // checkpoints without a sequence number fall back to their timestamp.
+        checkpoints.sort_by(|(sa, a), (sb, b)| {
+            sb.cmp(sa)
+                .then_with(|| b.created_at.cmp(&a.created_at))
+                .then_with(|| b.id.cmp(&a.id))
+        });
 
         Ok(checkpoints)
     }
